@@ -110,22 +110,154 @@ class GridModel:
         return (tuple(tuple(r) for r in self.rows), self.ncols)
 
     # -- helpers
-    def _grow_cols(self, row):
-        if len(row) > self.ncols:
-            self.ncols = len(row)
-
-    def _ensure_row(self, y):
-        """Make row y exist (set beyond the end pads with empty rows)."""
-        while len(self.rows) <= y:
-            self.rows.append([])
-            if self.ncols == 0 and False:
-                pass
-
     def ny(self, y):
         return norm_index(y, self.height)
 
     def nx(self, x):
         return norm_index(x, self.width)
+
+    def _after_row_edit(self, length):
+        if length > self.ncols:
+            self.ncols = length
+
+    def _init_columns(self, length):
+        """append_row on a table without column declarations declares them
+        (documented: 'columns are automatically created when the first row is
+        inserted in an empty table'); an empty row still declares one column."""
+        if self.ncols == 0:
+            self.ncols = max(1, length)
+
+    def _pad_rows(self, y):
+        """Rows appended so that position y exists as the next append position."""
+        if y > len(self.rows):
+            self._init_columns(0)
+            self.rows.extend([] for _ in range(y - len(self.rows)))
+
+    def _row_for_edit(self, y):
+        """Copy of row y, or a new empty row when y is beyond the table."""
+        return list(self.rows[y]) if y < len(self.rows) else []
+
+    # -- row operations
+    def set_row(self, y, cells, k=1):
+        y = self.ny(y)
+        cells = list(cells)
+        if y >= len(self.rows):
+            self._pad_rows(y)
+            self._init_columns(len(cells))
+            self.rows.extend(list(cells) for _ in range(k))
+        else:
+            self.rows[y : y + k] = [list(cells) for _ in range(k)]
+        self._after_row_edit(len(cells))
+
+    def insert_row(self, y, cells, k=1):
+        y = self.ny(y)
+        cells = list(cells)
+        if y >= len(self.rows):
+            self._pad_rows(y)
+            self._init_columns(len(cells))
+            self.rows.extend(list(cells) for _ in range(k))
+        else:
+            self.rows[y:y] = [list(cells) for _ in range(k)]
+        self._after_row_edit(len(cells))
+
+    def append_row(self, cells, k=1):
+        cells = list(cells)
+        self._init_columns(len(cells))
+        self.rows.extend(list(cells) for _ in range(k))
+        self._after_row_edit(len(cells))
+
+    def delete_row(self, y):
+        y = self.ny(y)
+        if y < len(self.rows):
+            del self.rows[y]
+
+    def extend_rows(self, rows):
+        for cells, k in rows:
+            self.rows.extend(list(cells) for _ in range(k))
+        self.ncols = max([self.ncols] + [len(r) for r in self.rows])
+
+    # -- cell operations
+    def set_cell(self, x, y, v, k=1):
+        x, y = self.nx(x), self.ny(y)
+        r = RowModel(self._row_for_edit(y))
+        r.set_cell(x, v, k)
+        self.set_row(y, r.cells)
+
+    def insert_cell(self, x, y, v, k=1):
+        x, y = self.nx(x), self.ny(y)
+        r = RowModel(self._row_for_edit(y))
+        r.insert_cell(x, v, k)
+        self.set_row(y, r.cells)
+
+    def append_cell(self, y, v, k=1):
+        y = self.ny(y)
+        r = RowModel(self._row_for_edit(y))
+        r.append_cell(v, k)
+        self.set_row(y, r.cells)
+
+    def delete_cell(self, x, y):
+        x, y = self.nx(x), self.ny(y)
+        if y < len(self.rows) and x < len(self.rows[y]):
+            del self.rows[y][x]
+
+    def set_block(self, x, y, block):
+        """Table.set_values / set_cells: block = list of rows, each a list of (v, k);
+        empty sub-lists are skipped (documented loop: 'if not row_values: continue')."""
+        x, y = self.nx(x), self.ny(y)
+        for i, items in enumerate(block):
+            if not items:
+                continue
+            yy = y + i
+            r = RowModel(self._row_for_edit(yy))
+            r.set_cells(items, x)
+            self.set_row(yy, r.cells)
+
+    # -- column operations
+    def insert_column(self, x, k=1):
+        x = self.nx(x)
+        if x > self.ncols:
+            self.ncols = x
+        self.ncols += k
+        for r in self.rows:
+            if len(r) > x:
+                r[x:x] = [None] * k
+
+    def append_column(self, k=1):
+        self.ncols += k
+
+    def delete_column(self, x):
+        x = self.nx(x)
+        if x >= self.ncols:
+            return
+        self.ncols -= 1
+        for r in self.rows:
+            if len(r) > x:
+                del r[x]
+
+    def set_column(self, x, k=1):
+        x = self.nx(x)
+        self.ncols = max(self.ncols, x + k)
+
+    def set_column_cells(self, x, items):
+        """items: one (v, k) per row; every row gets its cell at x."""
+        for y, (v, k) in enumerate(items):
+            r = RowModel(self.rows[y])
+            r.set_cell(x, v, k)
+            self.rows[y] = r.cells
+            self._after_row_edit(len(r.cells))
+
+    def clear(self):
+        self.rows = []
+        self.ncols = 0
+
+    def set_row_run_length(self, start, old_len, k):
+        cells = self.rows[start]
+        self.rows[start : start + old_len] = [list(cells) for _ in range(k)]
+
+    def set_cell_run_length(self, y, start, old_len, k):
+        r = RowModel(self.rows[y])
+        r.set_run_length(start, old_len, k)
+        self.rows[y] = r.cells
 
     # -- reads
     def matrix(self):
